@@ -1,10 +1,10 @@
 SPECIFICATION Spec
 CONSTANTS
   Chars <- SmallChars
-  MaxRows = 2
+  MaxRows = 3
   MaxCells = 2
-  MaxLen = 2
-  FeatureSets <- SomeFeatures
+  MaxLen = 1
+  FeatureSets <- AllFeatures
   Sheets <- OneSheet
   CollectAllText = TRUE
   ExpandRowRepeats = TRUE
